@@ -12,6 +12,7 @@ import Proofs.TmdBits
 import Proofs.NandProofs
 import Proofs.ConfigProofs
 import Proofs.SaveReopen
+import Proofs.LzssRoundtrip
 namespace Pyctr.C20
 open Pyctr
 
@@ -129,5 +130,25 @@ theorem C20_ncsd_image (b : Bytes) (hd : Nand.Header) (h : Nand.Header.fromBytes
 example : Smdh.GoodField [0x41, 0xD83D, 0xDE00, 0x42] 0x80 := by
   refine ⟨by decide, ?_, by decide, by decide, by decide⟩
   intro x hx; simp at hx; rcases hx with h | h | h | h <;> subst h <;> decide
+
+
+/-- **ExeFS code decompression inverts every disciplined backward-LZSS compressor.**  A compressor chooses an uncompressed
+    head `P`, token groups `gs` (literals and back references in decoding order) and padding; `Lzss.encodeFile` is the image
+    layout, `Lzss.validB` the discipline (12-bit offsets into already decoded data, 4-bit lengths, groups of eight, the
+    write pointer never overtaking the read pointer, field widths of the footer).  For EVERY such choice — any data, any
+    match structure incl. overlapping references, maximum distance and length, any size up to the format's limit —
+    `decompress_code` returns the head followed by what the tokens stand for.  The harness's reference compressor is tied
+    to this statement on every run: its token lists go through `encodeFile` / `validB` in the driver (`lzss-enc`), the image
+    must be byte-identical to the compressor's own and `validB` must hold. -/
+theorem C20_lzss_roundtrip (P : Bytes) (gs : List (List Lzss.Tok)) (pad : Nat) (hv : Lzss.validB P gs pad = true) :
+    Lzss.decompress (Lzss.encodeFile P gs pad) = .ok (P ++ Lzss.expand gs []) := Lzss.decompress_encode P gs pad hv
+
+/-- what the tokens stand for has the announced size: the decompressed image is `|P| + totalOut gs` bytes long -/
+theorem C20_lzss_size (gs : List (List Lzss.Tok)) : (Lzss.expand gs []).length = Lzss.totalOut gs := by
+  simpa using Lzss.expand_length gs []
+
+/-- non-vacuity: three literals and five overlapping maximum-length references (22 stream bytes for 93 bytes of data) -/
+example : Lzss.validB [9, 9] [[.lit 1, .lit 2, .lit 3, .ref 0 15, .ref 0 15, .ref 0 15, .ref 0 15, .ref 0 15]] 0 = true := by
+  decide
 
 end Pyctr.C20
